@@ -86,16 +86,20 @@ enum { L_NONE = 0, L_APP, L_BUSY };
 typedef struct {
 	nng_msg *m;
 	int      st;
+	bool     child; // while busy: the same message was received meanwhile
+	uint64_t seq;   // when it became busy
 } lent;
 static lent            led[LMAX];
 static int             led_hi;
 static int             led_cnt;
+static uint64_t        led_seq;
 static pthread_mutex_t led_mx = PTHREAD_MUTEX_INITIALIZER;
 static char            prog_tag[48]; // for violation details
 
 // The same pointer may appear more than once: over inproc the peer can
 // receive (take) a message before the sender has seen its send complete.
-// L_BUSY means "handed to a send call that has not reported yet".
+// L_BUSY means "handed to a send call that has not reported yet".  Sends are
+// identified by their slot, not by the pointer.
 static int
 led_find_st(nng_msg *m, int st) // st == L_NONE: any state
 {
@@ -108,12 +112,6 @@ led_find_st(nng_msg *m, int st) // st == L_NONE: any state
 }
 
 static int
-led_find(nng_msg *m)
-{
-	return led_find_st(m, L_NONE);
-}
-
-static bool
 led_add(nng_msg *m, int st)
 {
 	int i;
@@ -123,15 +121,25 @@ led_add(nng_msg *m, int st)
 		}
 	}
 	if (i == LMAX) {
-		return false;
+		return -1;
 	}
 	if (i == led_hi) {
 		led_hi++;
 	}
-	led[i].m  = m;
-	led[i].st = st;
+	led[i].m     = m;
+	led[i].st    = st;
+	led[i].child = false;
+	led[i].seq   = ++led_seq;
 	led_cnt++;
-	return true;
+	return i;
+}
+
+static void
+led_del(int i)
+{
+	led[i].st = L_NONE;
+	led[i].m  = NULL;
+	led_cnt--;
 }
 
 static int
@@ -145,7 +153,7 @@ led_count(void)
 
 // allocate a fresh message owned by the app, marked busy (about to be sent)
 static nng_msg *
-led_alloc(size_t sz, uint64_t key)
+led_alloc(size_t sz, uint64_t key, int *slot)
 {
 	nng_msg *m;
 	if (led_count() >= LMAX - 64) {
@@ -163,7 +171,7 @@ led_alloc(size_t sz, uint64_t key)
 		vf_violation("C03/ownership/alloc-returned-app-owned-msg", "%s: nng_msg_alloc returned %p which the application still owns", prog_tag, (void *) m);
 		return NULL;
 	}
-	led_add(m, L_BUSY);
+	*slot = led_add(m, L_BUSY);
 	pthread_mutex_unlock(&led_mx);
 	vf_stat("msgs_allocated", 1);
 	return m;
@@ -171,7 +179,7 @@ led_alloc(size_t sz, uint64_t key)
 
 // pick a random idle app-owned message (received earlier or a failed send)
 static nng_msg *
-led_pick(vf_rng *r)
+led_pick(vf_rng *r, int *slot)
 {
 	nng_msg *m = NULL;
 	pthread_mutex_lock(&led_mx);
@@ -180,8 +188,11 @@ led_pick(vf_rng *r)
 		for (int k = 0; k < led_hi; k++) {
 			int i = (start + k) % led_hi;
 			if (led[i].st == L_APP) {
-				led[i].st = L_BUSY;
-				m         = led[i].m;
+				led[i].st    = L_BUSY;
+				led[i].child = false;
+				led[i].seq   = ++led_seq;
+				m            = led[i].m;
+				*slot        = i;
 				break;
 			}
 		}
@@ -191,44 +202,39 @@ led_pick(vf_rng *r)
 }
 
 static void
-led_mark_busy(nng_msg *m) // idle app message about to be sent
+led_mark_busy(int slot) // idle app message about to be sent
 {
 	pthread_mutex_lock(&led_mx);
-	int i = led_find_st(m, L_APP);
-	if (i < 0) {
+	if (slot < 0 || led[slot].st != L_APP) {
 		pthread_mutex_unlock(&led_mx);
 		vf_harness_fail("ledger: message to send is not app-owned");
 	}
-	led[i].st = L_BUSY;
+	led[slot].st    = L_BUSY;
+	led[slot].child = false;
+	led[slot].seq   = ++led_seq;
 	pthread_mutex_unlock(&led_mx);
 }
 
 // failed send: the message is still ours.  proto for the violation key.
 static void
-led_release(nng_msg *m, const char *proto)
+led_release(int slot, const char *proto)
 {
 	pthread_mutex_lock(&led_mx);
-	int i = led_find_st(m, L_BUSY);
-	if (i < 0) {
+	if (slot < 0 || led[slot].st != L_BUSY) {
 		pthread_mutex_unlock(&led_mx);
 		vf_harness_fail("ledger: release of a message that is not busy");
 	}
-	led[i].st = L_APP;
-	// delivered to a receiver although the send failed: two owners
-	int dup = -1;
-	for (int k = 0; k < led_hi; k++) {
-		if (k != i && led[k].st != L_NONE && led[k].m == m) {
-			dup = k;
-		}
-	}
-	if (dup >= 0) {
-		// keep one entry so that it is freed once
-		led[dup].st = L_NONE;
-		led[dup].m  = NULL;
-		led_cnt--;
+	nng_msg *m   = led[slot].m;
+	bool     dup = led[slot].child;
+	if (dup) {
+		// delivered to a receiver although the send failed: two owners.
+		// Keep the receiver's entry so that the message is freed once.
+		led_del(slot);
+	} else {
+		led[slot].st = L_APP;
 	}
 	pthread_mutex_unlock(&led_mx);
-	if (dup >= 0) {
+	if (dup) {
 		char key[128];
 		snprintf(key, sizeof(key), "C03/ownership/failed-send-but-delivered/%s", proto);
 		vf_violation(key, "%s: a send of message %p failed (caller keeps it) but the same message was delivered to a receiver", prog_tag, (void *) m);
@@ -236,24 +242,21 @@ led_release(nng_msg *m, const char *proto)
 }
 
 static void
-led_give(nng_msg *m) // busy -> library owns it now
+led_give(int slot) // busy -> library owns it now
 {
 	pthread_mutex_lock(&led_mx);
-	int i = led_find_st(m, L_BUSY);
-	if (i < 0) {
+	if (slot < 0 || led[slot].st != L_BUSY) {
 		pthread_mutex_unlock(&led_mx);
 		vf_harness_fail("ledger: give of a message that is not busy");
 	}
-	led[i].st = L_NONE;
-	led[i].m  = NULL;
-	led_cnt--;
+	led_del(slot);
 	pthread_mutex_unlock(&led_mx);
 	vf_stat("msgs_to_lib", 1);
 }
 
 // library -> app.  Returns false if the ledger cannot take it (violation).
 static bool
-led_take(nng_msg *m, int st, const char *proto, const char *api)
+led_take(nng_msg *m, int st, const char *proto, const char *api, int *slot)
 {
 	char key[128];
 	if (m == NULL) {
@@ -268,11 +271,25 @@ led_take(nng_msg *m, int st, const char *proto, const char *api)
 		vf_violation(key, "%s: %s delivered message %p which the application already owns (failed send or earlier receive)", prog_tag, api, (void *) m);
 		return false;
 	}
-	// entries in L_BUSY are sends whose completion we have not seen yet
-	if (!led_add(m, st)) {
+	// the newest unreported send of this very message is the one that
+	// delivered it
+	int parent = -1;
+	for (int i = 0; i < led_hi; i++) {
+		if (led[i].st == L_BUSY && led[i].m == m && !led[i].child && (parent < 0 || led[i].seq > led[parent].seq)) {
+			parent = i;
+		}
+	}
+	if (parent >= 0) {
+		led[parent].child = true;
+	}
+	int i = led_add(m, st);
+	if (i < 0) {
 		pthread_mutex_unlock(&led_mx);
 		nng_msg_free(m); // no room: still exactly one release
 		return false;
+	}
+	if (slot != NULL) {
+		*slot = i;
 	}
 	pthread_mutex_unlock(&led_mx);
 	vf_stat("msgs_from_lib", 1);
@@ -365,6 +382,7 @@ typedef struct {
 	nng_socket hs;
 	nng_ctx    hc;
 	nng_msg   *msg;
+	int        mslot;
 	atomic_int done;
 	int        result;
 	int        efails, eiters;
@@ -592,9 +610,9 @@ pick_size(vf_rng *r)
 
 // fresh message for socket (pk, raw); route = a pipe id for raw rep/respondent
 static nng_msg *
-build_msg(vf_rng *r, int pk, bool raw, uint32_t route, size_t sz)
+build_msg(vf_rng *r, int pk, bool raw, uint32_t route, size_t sz, int *slot)
 {
-	nng_msg *m = led_alloc(sz, vf_rand(r));
+	nng_msg *m = led_alloc(sz, vf_rand(r), slot);
 	if (m == NULL) {
 		return NULL;
 	}
@@ -750,7 +768,7 @@ check_failed_send(aiom *a, int rv, const char *api)
 		vf_violation(key, "%s: %s completed with %s but nng_aio_get_msg returns %p, submitted %p", prog_tag, api, nng_strerror(rv), (void *) g, (void *) a->msg);
 	}
 	// by the property the message is ours whatever the aio says
-	led_release(a->msg, a->pname);
+	led_release(a->mslot, a->pname);
 }
 
 static void echo_cb(aiom *a);
@@ -771,7 +789,7 @@ aio_cb(void *arg)
 	}
 	if (a->kind == K_SEND) {
 		if (rv == 0) {
-			led_give(a->msg);
+			led_give(a->mslot);
 		} else {
 			check_failed_send(a, rv, a->on_ctx ? "nng_ctx_send" : "nng_socket_send");
 		}
@@ -790,7 +808,7 @@ aio_cb(void *arg)
 			// (read it before the ledger makes the message available
 			// to the driver threads, which may send it away at once)
 			uint32_t pid = m != NULL ? nng_msg_get_pipe(m).id : 0;
-			if (led_take(m, L_APP, a->pname, a->on_ctx ? "nng_ctx_recv" : "nng_socket_recv")) {
+			if (led_take(m, L_APP, a->pname, a->on_ctx ? "nng_ctx_recv" : "nng_socket_recv", NULL)) {
 				note_pipe(a->ts, pid);
 			}
 		}
@@ -827,7 +845,7 @@ echo_cb(aiom *a)
 	if (a->kind == K_RECV) {
 		if (rv == 0) {
 			nng_msg *m = nng_aio_get_msg(a->a);
-			if (led_take(m, L_BUSY, a->pname, "echo recv")) {
+			if (led_take(m, L_BUSY, a->pname, "echo recv", &a->mslot)) {
 				a->msg    = m;
 				a->efails = 0;
 				vf_stat("echo_rounds", 1);
@@ -838,7 +856,7 @@ echo_cb(aiom *a)
 		}
 	} else {
 		if (rv == 0) {
-			led_give(a->msg);
+			led_give(a->mslot);
 		} else {
 			check_failed_send(a, rv, "echo send");
 		}
@@ -988,18 +1006,18 @@ note_rv(const char *api, const target *tg, int rv)
 
 // ---------------------------------------------------------------- ops
 static nng_msg *
-msg_for(thr *t, const target *tg)
+msg_for(thr *t, const target *tg, int *slot)
 {
 	nng_msg *m = NULL;
 	if (vf_chance(&t->r, 2, 5)) {
-		m = led_pick(&t->r); // re-send something we received / failed to send
+		m = led_pick(&t->r, slot); // re-send something we received / failed to send
 		if (m != NULL) vf_stat("resent_app_msgs", 1);
 	}
 	if (m == NULL) {
-		m = build_msg(&t->r, tg->pk, tg->raw, some_pipe(tg->si, &t->r), pick_size(&t->r));
+		m = build_msg(&t->r, tg->pk, tg->raw, some_pipe(tg->si, &t->r), pick_size(&t->r), slot);
 	}
 	if (m == NULL) {
-		m = led_pick(&t->r);
+		m = led_pick(&t->r, slot);
 	}
 	return m;
 }
@@ -1019,7 +1037,7 @@ pick_aio_timeout(thr *t, bool *finite)
 }
 
 static void
-submit_oneshot(int ai, const target *tg, int kind, nng_msg *m, nng_duration to, bool finite)
+submit_oneshot(int ai, const target *tg, int kind, nng_msg *m, int mslot, nng_duration to, bool finite)
 {
 	aiom *a = &A[ai];
 	LOCK();
@@ -1031,6 +1049,7 @@ submit_oneshot(int ai, const target *tg, int kind, nng_msg *m, nng_duration to, 
 	a->hs     = tg->hs;
 	a->hc     = tg->hc;
 	a->msg    = m;
+	a->mslot  = mslot;
 	a->finite = finite;
 	if (a->stopped) a->stop_used = true; // one documented NNG_ESTOPPED, then never again
 	atomic_store(&a->done, 0);
@@ -1065,7 +1084,8 @@ op_send(thr *t)
 		form = 1;
 	}
 	UNLOCK();
-	nng_msg *m = msg_for(t, &tg);
+	int      mslot = -1;
+	nng_msg *m     = msg_for(t, &tg, &mslot);
 	if (m == NULL) {
 		if (ai >= 0) unclaim(ai);
 		LOCK();
@@ -1080,7 +1100,7 @@ op_send(thr *t)
 		reap_aio(ai);
 		cell("aio_send", &tg);
 		tr("t%d aio%d send %s%s msg=%zu to=%d [%s]", t->id, ai, tg.pname, tg.ci >= 0 ? ".ctx" : "", nng_msg_len(m), (int) to, tg.phase);
-		submit_oneshot(ai, &tg, K_SEND, m, to, finite || A[ai].stopped);
+		submit_oneshot(ai, &tg, K_SEND, m, mslot, to, finite || A[ai].stopped);
 		unclaim(ai);
 		vf_stat("aio_sends", 1);
 	} else {
@@ -1088,7 +1108,7 @@ op_send(thr *t)
 		cell(fl ? "sendmsg_nb" : "sendmsg", &tg);
 		tr("t%d sendmsg%s %s%s msg=%zu hdr=%zu [%s]", t->id, fl ? "(NB)" : "", tg.pname, tg.ci >= 0 ? ".ctx" : "", nng_msg_len(m), nng_msg_header_len(m), tg.phase);
 		rv = tg.ci >= 0 ? nng_ctx_sendmsg(tg.hc, m, fl) : nng_sendmsg(tg.hs, m, fl);
-		if (rv == 0) led_give(m); else led_release(m, tg.pname);
+		if (rv == 0) led_give(mslot); else led_release(mslot, tg.pname);
 		vf_stat(rv == 0 ? "sends_ok" : "sends_failed", 1);
 		note_rv("send", &tg, rv);
 	}
@@ -1128,7 +1148,7 @@ op_recv(thr *t)
 		reap_aio(ai);
 		cell("aio_recv", &tg);
 		tr("t%d aio%d recv %s%s to=%d [%s]", t->id, ai, tg.pname, tg.ci >= 0 ? ".ctx" : "", (int) to, tg.phase);
-		submit_oneshot(ai, &tg, K_RECV, NULL, to, finite || A[ai].stopped);
+		submit_oneshot(ai, &tg, K_RECV, NULL, -1, to, finite || A[ai].stopped);
 		unclaim(ai);
 		vf_stat("aio_recvs", 1);
 	} else {
@@ -1138,7 +1158,7 @@ op_recv(thr *t)
 		tr("t%d recvmsg%s %s%s [%s]", t->id, fl ? "(NB)" : "", tg.pname, tg.ci >= 0 ? ".ctx" : "", tg.phase);
 		rv = tg.ci >= 0 ? nng_ctx_recvmsg(tg.hc, &m, fl) : nng_recvmsg(tg.hs, &m, fl);
 		uint32_t pid = (rv == 0 && m != NULL) ? nng_msg_get_pipe(m).id : 0;
-		if (rv == 0 && led_take(m, L_APP, tg.pname, "nng_recvmsg")) {
+		if (rv == 0 && led_take(m, L_APP, tg.pname, "nng_recvmsg", NULL)) {
 			note_pipe(tg.si, pid);
 		}
 		vf_stat(rv == 0 ? "recvs_ok" : "recvs_failed", 1);
@@ -1691,6 +1711,18 @@ op_aio_action(thr *t)
 			break;
 		}
 	}
+	// a cancel that races with the close of the operation's target is the
+	// same window as the known expire-loop one (C02): only in race programs
+	int ts = -1;
+	if (ai >= 0 && !race_prog && A[ai].ts >= 0) {
+		if (S[A[ai].ts].closing) {
+			A[ai].claimed = false;
+			ai            = -1;
+		} else if (S[A[ai].ts].open) {
+			ts = A[ai].ts;
+			S[ts].users++;
+		}
+	}
 	UNLOCK();
 	if (ai < 0) return;
 	int how = (int) vf_below(&t->r, 8);
@@ -1700,6 +1732,11 @@ op_aio_action(thr *t)
 	}
 	finish_echo_or_pend(t, ai, how);
 	unclaim(ai);
+	if (ts >= 0) {
+		LOCK();
+		S[ts].users--;
+		UNLOCK();
+	}
 }
 
 static void
@@ -2377,17 +2414,18 @@ typedef struct {
 	int        pk;
 	bool       raw;
 	nng_msg   *last; // last message received here (app-owned, idle)
+	int        last_slot;
 	uint32_t   last_pipe;
 	bool       slow; // a receive timed out already: do not wait again
 	const char *pname;
 } mside;
 
 static int
-m_send(mside *x, nng_msg *m, vf_rng *r)
+m_send(mside *x, nng_msg *m, int slot, vf_rng *r)
 {
 	int fl = vf_chance(r, 1, 4) ? NNG_FLAG_NONBLOCK : 0;
 	int rv = x->use_ctx ? nng_ctx_sendmsg(x->c, m, fl) : nng_sendmsg(x->s, m, fl);
-	if (rv == 0) led_give(m); else led_release(m, x->pname);
+	if (rv == 0) led_give(slot); else led_release(slot, x->pname);
 	vf_stat(rv == 0 ? "sends_ok" : "sends_failed", 1);
 	return rv;
 }
@@ -2462,21 +2500,24 @@ run_matrix_case(long idx, const mpair *mp, int pos, int side, const optdef *o, l
 		int    rv  = 0;
 		switch (act) {
 		case 's': {
-			nng_msg *m = build_msg(&r, x->pk, x->raw, x->last_pipe, vf_chance(&r, 1, 6) ? 300 + vf_below(&r, 3000) : vf_below(&r, 90));
+			int      slot = -1;
+			nng_msg *m    = build_msg(&r, x->pk, x->raw, x->last_pipe, vf_chance(&r, 1, 6) ? 300 + vf_below(&r, 3000) : vf_below(&r, 90), &slot);
 			if (m == NULL) vf_harness_fail("ledger full");
-			rv = m_send(x, m, &r);
+			rv = m_send(x, m, slot, &r);
 			tr("%c send -> %d", mp->script[2 * p], rv);
 			break;
 		}
 		case 'e': {
-			nng_msg *m = x->last;
-			x->last    = NULL;
+			nng_msg *m    = x->last;
+			int      slot = x->last_slot;
+			x->last       = NULL;
 			if (m != NULL) {
-				led_mark_busy(m);
+				led_mark_busy(slot);
 			} else {
-				m = build_msg(&r, x->pk, x->raw, x->last_pipe, 20);
+				m = build_msg(&r, x->pk, x->raw, x->last_pipe, 20, &slot);
 			}
-			rv = m_send(x, m, &r);
+			if (m == NULL) vf_harness_fail("ledger full");
+			rv = m_send(x, m, slot, &r);
 			tr("%c reply -> %d", mp->script[2 * p], rv);
 			break;
 		}
@@ -2485,8 +2526,10 @@ run_matrix_case(long idx, const mpair *mp, int pos, int side, const optdef *o, l
 			int      fl = x->slow ? NNG_FLAG_NONBLOCK : 0;
 			rv          = x->use_ctx ? nng_ctx_recvmsg(x->c, &m, fl) : nng_recvmsg(x->s, &m, fl);
 			tr("%c recv%s -> %d", mp->script[2 * p], fl ? "(NB)" : "", rv);
-			if (rv == 0 && led_take(m, L_APP, x->pname, "nng_recvmsg")) {
+			int slot = -1;
+			if (rv == 0 && led_take(m, L_APP, x->pname, "nng_recvmsg", &slot)) {
 				x->last      = m;
+				x->last_slot = slot;
 				x->last_pipe = nng_msg_get_pipe(m).id;
 				vf_stat("recvs_ok", 1);
 				if (did) vf_stat("recvs_ok_after_option_change", 1);
